@@ -1,4 +1,5 @@
 import BarterModel.Lemmas.Engine
+import BarterModel.Lemmas.Review1Engine
 /-!
 # C03 — Order requests: sent ⇒ delivered once and in flight; refused/failed ⇒ neither
 
@@ -162,10 +163,7 @@ theorem generateStage_audit (e : Eng) (cmd : Option ActionOut) (algoC : List Can
   · rename_i hen
     simp [hen] at h
 
-/-- (audit ⊆) what the audit shows as algo output is what `generate_algo_orders` returned. (When an
-algo send fails fatally the audit carries the errors and omits the output although the healthy
-part was delivered and marked — examined boundary F8, DESIGN §8: the property demands
-"reported sent ⇒ delivered", which holds.) -/
+/-- (audit ⊆) what the audit shows as algo output is what `generate_algo_orders` returned. -/
 theorem audit_algo_is_generated (e : Eng) (ev : Event) (algoC : List CancelReq)
     (algoO : List OpenReq) (refuse : Key → Bool) (out : AlgoOut)
     (h : (process e ev algoC algoO refuse).2.algoInAudit = some out) :
@@ -179,6 +177,37 @@ theorem audit_algo_is_generated (e : Eng) (ev : Event) (algoC : List CancelReq)
     · rename_i hf; simp only [hf]; exact generateStage_audit _ _ _ _ _ _ h
   | tradingState on => exact generateStage_audit _ _ _ _ _ _ h
   | update u => exact generateStage_audit _ _ _ _ _ _ h
+
+/-- (audit ⊇, clauses 3 and 4) nothing `generate_algo_orders` did is missing from the audit: whenever
+generation ran and produced anything at all — requests sent, requests that failed (recoverably or
+not), requests refused by the risk manager — the audit carries exactly that output, also in a tick
+whose audit carries unrecoverable errors. (Before the repair of the engine the output was dropped
+from the audit in such a tick: the refused and the failed requests were then not reported.) -/
+theorem audit_reports_everything_generated (e : Eng) (ev : Event) (algoC : List CancelReq)
+    (algoO : List OpenReq) (refuse : Key → Bool) (out : AlgoOut)
+    (h : (process e ev algoC algoO refuse).2.generated = some out) (hne : out.isEmpty = false) :
+    (process e ev algoC algoO refuse).2.algoInAudit = some out := by
+  have key : ∀ (e' : Eng) (cmd : Option ActionOut),
+      (generateStage e' cmd algoC algoO refuse).2.generated = some out →
+      (generateStage e' cmd algoC algoO refuse).2.algoInAudit = some out := by
+    intro e' cmd hg
+    unfold generateStage at hg ⊢
+    split
+    · rename_i hen
+      simp only [hen, ↓reduceIte] at hg
+      have : (generateAlgoOrders e' algoC algoO refuse).2 = out := by simpa using hg
+      simp [this, hne]
+    · rename_i hen
+      simp [hen] at hg
+  cases ev with
+  | shutdown => simp [process] at h
+  | command c =>
+    simp only [process] at h ⊢
+    split at h
+    · simp at h
+    · rename_i hf; simp only [hf]; exact key _ _ h
+  | tradingState on => exact key _ _ h
+  | update u => exact key _ _ h
 
 /-- (2) every open request reported sent by a `SendOpenRequests` command is shown in flight
 afterwards. -/
@@ -400,5 +429,470 @@ example : (generateAlgoOrders demoU [] [o0, o1] (fun _ => false)).2.opens.errors
     (generateAlgoOrders demoU [] [o0, o1] (fun _ => false)).1.log = [.opn o0] ∧
     orderState (generateAlgoOrders demoU [] [o0, o1] (fun _ => false)).1 1 6 = none ∧
     (generateAlgoOrders demo [] [o0, o1] (fun _ => false)).2.fatal = true := by decide +kernel
+
+/-! ## Added after the independent review (audit/report_C01-C05.md, items C03-H2, M1, M2, M3) -/
+
+/-- every open request a tick reports as sent (by the command or by the generation stage) -/
+def Audit.sentOpens (a : Audit) : List OpenReq :=
+  (match a.commanded with | some c => c.opens.sent | none => []) ++
+  (match a.generated with | some g => g.opens.sent | none => [])
+
+/-- every cancel request a tick reports as sent -/
+def Audit.sentCancels (a : Audit) : List CancelReq :=
+  (match a.commanded with | some c => c.cancels.sent | none => []) ++
+  (match a.generated with | some g => g.cancels.sent | none => [])
+
+theorem mem_lookup_isSome (m : Orders) (c : Nat) (o : Order) (h : (c, o) ∈ m) :
+    (lookup m c).isSome = true := by
+  induction m with
+  | nil => cases h
+  | cons kv rest ih =>
+    obtain ⟨k, v⟩ := kv
+    by_cases hk : k = c
+    · simp [lookup, hk]
+    · rcases List.mem_cons.mp h with heq | hm
+      · injection heq with h1 _; exact absurd h1.symm hk
+      · simpa [lookup, hk] using ih hm
+
+/-- (2, H2) `ClosePositions`: every open request the command reports as sent is shown in flight
+afterwards (no side condition: the request names an existing instrument by construction). -/
+theorem close_sent_in_flight (e : Eng) (f : Filter) (r : OpenReq)
+    (hr : r ∈ (action e (.closePositions f)).2.opens.sent) :
+    orderState (action e (.closePositions f)).1 r.key.instrument r.key.cid = some .inFlight := by
+  simp only [action] at hr ⊢
+  have hm : r ∈ closeRequests e f := by
+    simp only [sendRequests, List.mem_filter] at hr; exact hr.1
+  obtain ⟨i, s', side, q, p, hs', _, _, _, rfl⟩ := (mem_closeRequests e f r).mp hm
+  have hi : i < e.instruments.length := by
+    rcases Nat.lt_or_ge i e.instruments.length with h | h
+    · exact h
+    · rw [List.getElem?_eq_none h] at hs'; cases hs'
+  exact orderState_recordOpens_mem _ _ _ hr (by simpa [sendRequests, recordCancels] using hi)
+
+/-- (2, H2) `ClosePositions` with the default strategy sends (and fails) no cancel at all, so the
+cancel half of the clause is empty for it. -/
+theorem close_sends_no_cancel (e : Eng) (f : Filter) :
+    (action e (.closePositions f)).2.cancels.sent = [] ∧
+    (action e (.closePositions f)).2.cancels.errors = [] := ⟨rfl, rfl⟩
+
+/-- (2, H2) `CancelOrders`: every cancel request the command reports as sent names an order that was
+tracked, and that order is shown cancel-in-flight afterwards (no side condition). `CancelOrders`
+sends no open. (The whole-entry version is `C19.cancel_command_effect`.) -/
+theorem cancel_orders_sent_in_flight (e : Eng) (f : Filter) (r : CancelReq)
+    (hr : r ∈ (action e (.cancelOrders f)).2.cancels.sent) :
+    (orderState e r.key.instrument r.key.cid).isSome = true ∧
+    (∃ x, orderState (action e (.cancelOrders f)).1 r.key.instrument r.key.cid =
+      some (.cancelInFlight x)) ∧
+    (action e (.cancelOrders f)).2.opens.sent = [] := by
+  simp only [action] at hr ⊢
+  have hm : r ∈ cancelRequests e f := by
+    simp only [sendRequests, List.mem_filter] at hr; exact hr.1
+  obtain ⟨i, s, c, o, hs, _, hco, hreq⟩ := (mem_cancelRequests e f r).mp hm
+  have hk := toRequestCancel_key i (c, o) r hreq
+  have htr : (orderState e r.key.instrument r.key.cid).isSome = true := by
+    rw [hk.1, hk.2]
+    simp only [orderState, hs, stateOf]
+    have := mem_lookup_isSome s.orders c o hco
+    cases hl : lookup s.orders c with
+    | none => simp [hl] at this
+    | some v => rfl
+  refine ⟨htr, ?_, rfl⟩
+  cases ha : orderState e r.key.instrument r.key.cid with
+  | none => simp [ha] at htr
+  | some a => exact orderState_recordCancels_mem _ _ r hr a (by simpa [orderState, sendRequests] using ha)
+
+/-- (2, H2) all FOUR command kinds at once: every open request a command reports as sent is shown in
+flight afterwards, and every cancel request it reports as sent leaves the tracked order it names
+cancel-in-flight. (For the two filter commands the side conditions hold by construction:
+`close_sent_in_flight`, `cancel_orders_sent_in_flight`.) -/
+theorem sent_in_flight_any_command (e : Eng) (c : Command) :
+    (∀ o ∈ (action e c).2.opens.sent, o.key.instrument < e.instruments.length →
+      orderState (action e c).1 o.key.instrument o.key.cid = some .inFlight) ∧
+    (∀ q ∈ (action e c).2.cancels.sent, (orderState e q.key.instrument q.key.cid).isSome = true →
+      ∃ x, orderState (action e c).1 q.key.instrument q.key.cid = some (.cancelInFlight x)) := by
+  cases c with
+  | sendCancelRequests rs =>
+    refine ⟨by intro o ho; simp [action, SendOut.empty] at ho, ?_⟩
+    intro q hq htr
+    have := sent_cancel_in_flight_command e rs q hq
+    cases ha : orderState e q.key.instrument q.key.cid with
+    | none => simp [ha] at htr
+    | some a => simpa [ha] using this
+  | sendOpenRequests rs =>
+    exact ⟨fun o ho hi => sent_open_in_flight_command e rs o ho hi,
+      by intro q hq; simp [action, SendOut.empty] at hq⟩
+  | closePositions f =>
+    exact ⟨fun o ho _ => close_sent_in_flight e f o ho, by intro q hq; simp [action, sendRequests] at hq⟩
+  | cancelOrders f =>
+    exact ⟨by intro o ho; simp [action, SendOut.empty] at ho,
+      fun q hq _ => (cancel_orders_sent_in_flight e f q hq).2.1⟩
+
+/-- (3, M2) "leaves no in-flight mark" on the COMMAND paths, all four kinds: an order `(i, c)` that no
+request the command reports as SENT names keeps exactly its tracked state. In particular a request
+whose delivery failed leaves no mark — unless a sibling request of the same command with the same
+`(instrument, client order id)` was delivered (then that one's mark is shown, rightly). -/
+theorem unsent_leaves_no_mark_command (e : Eng) (cmd : Command) (i c : Nat)
+    (ho : ∀ o ∈ (action e cmd).2.opens.sent, ¬ (o.key.instrument = i ∧ o.key.cid = c))
+    (hq : ∀ q ∈ (action e cmd).2.cancels.sent, ¬ (q.key.instrument = i ∧ q.key.cid = c)) :
+    orderState (action e cmd).1 i c = orderState e i c := by
+  have hC : ∀ (qs : List CancelReq) (e0 : Eng), (∀ q ∈ qs, ¬ (q.key.instrument = i ∧ q.key.cid = c)) →
+      orderState (recordCancels e0 qs) i c = orderState e0 i c := by
+    intro qs
+    induction qs with
+    | nil => intro e0 _; rfl
+    | cons q qs ih =>
+      intro e0 h
+      simp only [recordCancels, List.foldl_cons] at *
+      rw [ih _ (fun x hx => h x (by simp [hx])), orderState_recordCancel]
+      have := h q (by simp)
+      split
+      · rename_i hh; exact absurd ⟨hh.1.symm, hh.2.symm⟩ this
+      · rfl
+  cases cmd with
+  | sendCancelRequests rs =>
+    simp only [action] at hq ⊢
+    rw [hC _ _ hq]; rfl
+  | sendOpenRequests rs =>
+    simp only [action] at ho ⊢
+    rw [orderState_recordOpens_other _ _ _ _ ho]; rfl
+  | closePositions f =>
+    simp only [action] at ho hq ⊢
+    rw [orderState_recordOpens_other _ _ _ _ ho, hC _ _ hq]; rfl
+  | cancelOrders f =>
+    simp only [action] at hq ⊢
+    rw [hC _ _ hq]; rfl
+
+/-- (3, M2) the open version spelled out for a failed request: an open request of a
+`SendOpenRequests` command whose delivery failed leaves the order it would have opened exactly as it
+was (in particular untracked if it was untracked), provided no delivered sibling shares its
+`(instrument, client order id)`. -/
+theorem failed_open_leaves_no_mark_command (e : Eng) (rs : List OpenReq) (r : OpenReq) (err : SendError)
+    (_hr : (r, err) ∈ (action e (.sendOpenRequests rs)).2.opens.errors)
+    (hsib : ∀ o ∈ (action e (.sendOpenRequests rs)).2.opens.sent,
+      ¬ (o.key.instrument = r.key.instrument ∧ o.key.cid = r.key.cid)) :
+    orderState (action e (.sendOpenRequests rs)).1 r.key.instrument r.key.cid =
+      orderState e r.key.instrument r.key.cid :=
+  unsent_leaves_no_mark_command e _ _ _ hsib (by intro q hq; simp [action, SendOut.empty] at hq)
+
+/-- (3, M2) the cancel version: a cancel request of a `SendCancelRequests` command whose delivery
+failed leaves the tracked order's state unchanged (not cancel-in-flight), provided no delivered
+sibling names the same order. -/
+theorem failed_cancel_leaves_state_command (e : Eng) (rs : List CancelReq) (r : CancelReq)
+    (err : SendError) (_hr : (r, err) ∈ (action e (.sendCancelRequests rs)).2.cancels.errors)
+    (hsib : ∀ q ∈ (action e (.sendCancelRequests rs)).2.cancels.sent,
+      ¬ (q.key.instrument = r.key.instrument ∧ q.key.cid = r.key.cid)) :
+    orderState (action e (.sendCancelRequests rs)).1 r.key.instrument r.key.cid =
+      orderState e r.key.instrument r.key.cid :=
+  unsent_leaves_no_mark_command e _ _ _ (by intro o ho; simp [action, SendOut.empty] at ho) hsib
+
+/-- (3, M2) a command none of whose requests could be delivered changes no order table at all. -/
+theorem nothing_sent_nothing_marked (e : Eng) (cmd : Command)
+    (ho : (action e cmd).2.opens.sent = []) (hq : (action e cmd).2.cancels.sent = []) :
+    (action e cmd).1.instruments = e.instruments := by
+  cases cmd with
+  | sendCancelRequests rs => simp only [action] at hq ⊢; rw [hq]; rfl
+  | sendOpenRequests rs => simp only [action] at ho ⊢; rw [ho]; rfl
+  | closePositions f => simp only [action] at ho hq ⊢; rw [ho, hq]; rfl
+  | cancelOrders f => simp only [action] at hq ⊢; rw [hq]; rfl
+
+
+/-! ### (2, M1) lifted to the whole tick (`process`) and to histories ("from then on") -/
+
+theorem mem_sentOpens (a : Audit) (o : OpenReq) :
+    o ∈ Audit.sentOpens a ↔
+      (∃ c, a.commanded = some c ∧ o ∈ c.opens.sent) ∨ (∃ g, a.generated = some g ∧ o ∈ g.opens.sent) := by
+  unfold Audit.sentOpens
+  cases a.commanded <;> cases a.generated <;> simp
+
+theorem mem_sentCancels (a : Audit) (q : CancelReq) :
+    q ∈ Audit.sentCancels a ↔
+      (∃ c, a.commanded = some c ∧ q ∈ c.cancels.sent) ∨ (∃ g, a.generated = some g ∧ q ∈ g.cancels.sent) := by
+  unfold Audit.sentCancels
+  cases a.commanded <;> cases a.generated <;> simp
+
+/-- (2, M1) **one whole tick, opens.** Every open request the audit of a tick reports as sent — by the
+command or by the generation stage — is shown as in flight after the WHOLE tick: `inFlight`, or
+`cancelInFlight _` (the generation stage of the same tick may send a cancel for the order a command
+just opened; see `command_mark_rewritten_witness`). For every event kind, strategy output, risk
+verdict, link table and trading state. -/
+theorem process_sent_open_in_flight (e : Eng) (ev : Event) (algoC : List CancelReq)
+    (algoO : List OpenReq) (refuse : Key → Bool) (o : OpenReq)
+    (ho : o ∈ Audit.sentOpens (process e ev algoC algoO refuse).2)
+    (hi : o.key.instrument < e.instruments.length) :
+    ShownInFlight (orderState (process e ev algoC algoO refuse).1 o.key.instrument o.key.cid) := by
+  obtain ⟨hc, hg⟩ := process_shape e ev algoC algoO refuse
+  have hlen := stateBeforeGeneration_length e ev
+  rcases (mem_sentOpens _ o).mp ho with ⟨a, ha, hoa⟩ | ⟨g, hgen, hog⟩
+  · -- sent by the command: in flight after `action`; the generation stage keeps it shown in flight
+    rw [hc] at ha
+    cases ev with
+    | command c =>
+      simp only [commandedOf, Option.some.injEq] at ha
+      subst ha
+      have h1 : ShownInFlight (orderState (stateBeforeGeneration e (.command c)) o.key.instrument o.key.cid) :=
+        Or.inl ((sent_in_flight_any_command e c).1 o hoa hi)
+      rcases hg with ⟨_, hs⟩ | ⟨_, hs⟩
+      · rw [hs]; exact h1
+      · rw [hs]; exact stable_generateAlgoOrders markStable_shown _ _ _ _ _ _ h1
+    | shutdown => cases ha
+    | tradingState on => cases ha
+    | update u => cases ha
+  · -- sent by the generation stage: opens are recorded last
+    rcases hg with ⟨hn, _⟩ | ⟨hsome, hs⟩
+    · rw [hn] at hgen; cases hgen
+    · rw [hsome] at hgen
+      injection hgen with hgen; subst hgen
+      rw [hs]
+      exact Or.inl ((sent_in_flight_algo _ algoC algoO refuse).1 o hog (by rw [hlen]; exact hi))
+
+/-- a command's sent cancel leaves the order it names untracked (it was) or cancel-in-flight -/
+theorem action_sent_cancel_notPlainOpen (e : Eng) (c : Command) (q : CancelReq)
+    (hq : q ∈ (action e c).2.cancels.sent) :
+    NotPlainOpen (orderState (action e c).1 q.key.instrument q.key.cid) := by
+  cases c with
+  | sendCancelRequests rs => exact notPlainOpen_recordCancels_mem _ _ q hq
+  | sendOpenRequests rs => simp [action, SendOut.empty] at hq
+  | closePositions f => simp [action, sendRequests] at hq
+  | cancelOrders f => exact notPlainOpen_recordCancels_mem _ _ q hq
+
+/-- (2, M1) **one whole tick, cancels.** For every cancel request the audit of a tick reports as sent
+(commanded or generated): after the WHOLE tick the order it names is never shown as a plain `Open` —
+it is untracked (it was untracked when the cancel was sent: the code logs and carries on) or shown as
+in flight; and if the order was tracked when the tick's requests were generated it is shown as in
+flight: `cancelInFlight _`, or `inFlight` when the generation stage of the same tick re-opened that
+very client order id (`cancel_mark_rewritten_witness`). -/
+theorem process_sent_cancel_in_flight (e : Eng) (ev : Event) (algoC : List CancelReq)
+    (algoO : List OpenReq) (refuse : Key → Bool) (q : CancelReq)
+    (hq : q ∈ Audit.sentCancels (process e ev algoC algoO refuse).2) :
+    NotPlainOpen (orderState (process e ev algoC algoO refuse).1 q.key.instrument q.key.cid) ∧
+    ((orderState (stateBeforeRequests e ev) q.key.instrument q.key.cid).isSome = true →
+      ShownInFlight (orderState (process e ev algoC algoO refuse).1 q.key.instrument q.key.cid)) := by
+  have hnpo : NotPlainOpen (orderState (process e ev algoC algoO refuse).1 q.key.instrument q.key.cid) := by
+    obtain ⟨hc, hg⟩ := process_shape e ev algoC algoO refuse
+    rcases (mem_sentCancels _ q).mp hq with ⟨a, ha, hqa⟩ | ⟨g, hgen, hqg⟩
+    · rw [hc] at ha
+      cases ev with
+      | command c =>
+        simp only [commandedOf, Option.some.injEq] at ha
+        subst ha
+        have h1 := action_sent_cancel_notPlainOpen e c q hqa
+        rcases hg with ⟨_, hs⟩ | ⟨_, hs⟩
+        · rw [hs]; exact h1
+        · rw [hs]; exact stable_generateAlgoOrders markStable_notPlainOpen _ _ _ _ _ _ h1
+      | shutdown => cases ha
+      | tradingState on => cases ha
+      | update u => cases ha
+    · rcases hg with ⟨hn, _⟩ | ⟨hsome, hs⟩
+      · rw [hn] at hgen; cases hgen
+      · rw [hsome] at hgen
+        injection hgen with hgen; subst hgen
+        rw [hs]
+        simp only [generateAlgoOrders] at hqg ⊢
+        exact stable_recordOpens markStable_notPlainOpen _ _ _ _ (notPlainOpen_recordCancels_mem _ _ q hqg)
+  refine ⟨hnpo, ?_⟩
+  intro htr
+  have htr' := stable_process_from markStable_tracked e ev algoC algoO refuse _ _ htr
+  rcases hnpo with hnone | h
+  · rw [hnone] at htr'; cases htr'
+  · exact h
+
+/-- (2, M1) **"from then on", one further tick.** An order shown as in flight stays shown as in flight
+over any tick whose event is not an exchange report (order snapshot) or a cancel response for that
+very `(instrument, client order id)` — whatever command the tick carries, whatever the strategy
+generates and the risk manager refuses, whatever the links do. -/
+theorem process_keeps_in_flight (e : Eng) (ev : Event) (algoC : List CancelReq)
+    (algoO : List OpenReq) (refuse : Key → Bool) (i c : Nat) (hev : ev.reportsOn i c = false)
+    (h : ShownInFlight (orderState e i c)) :
+    ShownInFlight (orderState (process e ev algoC algoO refuse).1 i c) :=
+  stable_process_from markStable_shown e ev algoC algoO refuse i c
+    (stable_stateBeforeRequests markStable_shown e ev i c hev h)
+
+/-- (2, M1) **"from then on", any history.** -/
+theorem run_keeps_in_flight (e : Eng) (ticks : List TickInput) (i c : Nat)
+    (hev : ∀ t ∈ ticks, t.1.reportsOn i c = false) (h : ShownInFlight (orderState e i c)) :
+    ShownInFlight (orderState (runEngine e ticks) i c) := by
+  induction ticks generalizing e with
+  | nil => exact h
+  | cons t ts ih =>
+    simp only [runEngine, List.foldl_cons]
+    exact ih _ (fun x hx => hev x (by simp [hx]))
+      (process_keeps_in_flight e t.1 t.2.1 t.2.2.1 t.2.2.2 i c (hev t (by simp)) h)
+
+/-- (2, M1) **persistence for opens**: an open request reported sent by tick `t` is shown as in
+flight after that tick and after every further tick, until an exchange report or a cancel response
+for that `(instrument, client order id)` arrives. -/
+theorem sent_open_in_flight_from_then_on (e : Eng) (t : TickInput) (later : List TickInput)
+    (o : OpenReq) (ho : o ∈ Audit.sentOpens (process e t.1 t.2.1 t.2.2.1 t.2.2.2).2)
+    (hi : o.key.instrument < e.instruments.length)
+    (hev : ∀ t' ∈ later, t'.1.reportsOn o.key.instrument o.key.cid = false) :
+    ShownInFlight (orderState (runEngine e (t :: later)) o.key.instrument o.key.cid) := by
+  simp only [runEngine, List.foldl_cons]
+  exact run_keeps_in_flight _ later _ _ hev (process_sent_open_in_flight e t.1 t.2.1 t.2.2.1 t.2.2.2 o ho hi)
+
+/-- (2, M1) **persistence for cancels**: the tracked order a cancel request reported sent by tick `t`
+names is shown as in flight after that tick and after every further tick, until an exchange report or
+a cancel response for it arrives. -/
+theorem sent_cancel_in_flight_from_then_on (e : Eng) (t : TickInput) (later : List TickInput)
+    (q : CancelReq) (hq : q ∈ Audit.sentCancels (process e t.1 t.2.1 t.2.2.1 t.2.2.2).2)
+    (htr : (orderState (stateBeforeRequests e t.1) q.key.instrument q.key.cid).isSome = true)
+    (hev : ∀ t' ∈ later, t'.1.reportsOn q.key.instrument q.key.cid = false) :
+    ShownInFlight (orderState (runEngine e (t :: later)) q.key.instrument q.key.cid) := by
+  simp only [runEngine, List.foldl_cons]
+  exact run_keeps_in_flight _ later _ _ hev
+    ((process_sent_cancel_in_flight e t.1 t.2.1 t.2.2.1 t.2.2.2 q hq).2 htr)
+
+
+theorem inFlight_after_cancels_opens (e1 : Eng) (qs : List CancelReq) (os : List OpenReq) (i c : Nat)
+    (h0 : orderState e1 i c = some .inFlight) (hi : i < e1.instruments.length) :
+    orderState (recordOpens (recordCancels e1 qs) os) i c =
+      if qs.any (fun q => decide (q.key.instrument = i ∧ q.key.cid = c)) ∧
+         ¬ os.any (fun r => decide (r.key.instrument = i ∧ r.key.cid = c))
+      then some (.cancelInFlight none) else some .inFlight := by
+  rw [orderState_recordOpens, orderState_recordCancels, recordCancels_length, h0]
+  cases os.any (fun r => decide (r.key.instrument = i ∧ r.key.cid = c)) <;>
+    cases qs.any (fun q => decide (q.key.instrument = i ∧ q.key.cid = c)) <;>
+    simp [hi, Active.openMeta]
+
+/-- (2, M1) exactly what a command's open shows after the whole tick when the generation stage runs:
+`inFlight`, except that a cancel sent for it by the generation stage of the same tick (and no open
+re-using its id) turns the mark into `cancelInFlight none`. -/
+theorem commanded_open_mark_exact (e : Eng) (c : Command) (algoC : List CancelReq)
+    (algoO : List OpenReq) (refuse : Key → Bool) (o : OpenReq)
+    (ho : o ∈ (action e c).2.opens.sent) (hi : o.key.instrument < e.instruments.length) :
+    let g := generateAlgoOrders (action e c).1 algoC algoO refuse
+    orderState g.1 o.key.instrument o.key.cid =
+      if g.2.cancels.sent.any (fun q => decide (q.key.instrument = o.key.instrument ∧ q.key.cid = o.key.cid)) ∧
+         ¬ g.2.opens.sent.any (fun r => decide (r.key.instrument = o.key.instrument ∧ r.key.cid = o.key.cid))
+      then some (.cancelInFlight none) else some .inFlight := by
+  intro g
+  have h0 : orderState (action e c).1 o.key.instrument o.key.cid = some .inFlight :=
+    (sent_in_flight_any_command e c).1 o ho hi
+  simp only [g, generateAlgoOrders]
+  exact inFlight_after_cancels_opens _ _ _ _ _ h0 (by
+    show o.key.instrument < (action e c).1.instruments.length
+    rw [action_length]; exact hi)
+
+/-- (2, M1) witness that the command-level statement does NOT lift verbatim: in one tick a
+`SendOpenRequests` command opens `(0, 5)` (reported sent) and the strategy's generation stage sends a
+cancel for that very order: after the tick the order is `cancelInFlight none`, not `inFlight`. -/
+theorem command_mark_rewritten_witness :
+    let r := process demo (.command (.sendOpenRequests [o0])) [⟨⟨0, 0, 5⟩, none⟩] [] (fun _ => false)
+    (r.2.commanded.map (·.opens.sent)) = some [o0] ∧
+    (r.2.generated.map (·.cancels.sent)) = some [⟨⟨0, 0, 5⟩, none⟩] ∧
+    orderState r.1 0 5 = some (.cancelInFlight none) := by decide +kernel
+
+/-- tracked open order `(0, 5)` -/
+def demoTracked : Eng :=
+  { demo with instruments := [⟨0, 0, 1, [(5, ⟨1, 100, .opn ⟨9, 0, 0⟩, 0⟩)], none, none⟩,
+                              ⟨1, 2, 3, [], none, none⟩] }
+
+/-- (2, M1) the cancel twin: a command cancels the tracked order `(0, 5)` (reported sent) and the
+generation stage of the same tick opens client order id 5 again: the order the cancel names ends
+`inFlight`, not cancel-in-flight. -/
+theorem cancel_mark_rewritten_witness :
+    let r := process demoTracked (.command (.sendCancelRequests [⟨⟨0, 0, 5⟩, none⟩])) [] [o0] (fun _ => false)
+    (r.2.commanded.map (·.cancels.sent)) = some [⟨⟨0, 0, 5⟩, none⟩] ∧
+    orderState r.1 0 5 = some .inFlight := by decide +kernel
+
+/-! ### (5, M3) "keeps updating its state" while disabled; the disabling tick itself -/
+
+/-- (5, M3) while algorithmic trading is disabled the engine keeps updating its state: a market /
+account update tick leaves EXACTLY the state the update produces (nothing else happens). -/
+theorem disabled_still_updates (e : Eng) (u : Update) (algoC : List CancelReq) (algoO : List OpenReq)
+    (refuse : Key → Bool) (hd : e.enabled = false) :
+    (process e (.update u) algoC algoO refuse).1 = applyUpdate e u := by
+  have : (applyUpdate e u).enabled = false := by cases u <;> simpa [applyUpdate] using hd
+  simp [process, generateStage, this]
+
+/-- (5, M3) … and a command tick leaves exactly the state the command's action produces (delivery
+log, in-flight marks). -/
+theorem disabled_command_state (e : Eng) (c : Command) (algoC : List CancelReq) (algoO : List OpenReq)
+    (refuse : Key → Bool) (hd : e.enabled = false) :
+    (process e (.command c) algoC algoO refuse).1 = (action e c).1 := by
+  simp only [process]
+  split
+  · rfl
+  · simp [generateStage, action_enabled, hd]
+
+/-- (5, M3) the tick that DISABLES trading generates nothing itself, whatever the trading state was
+before and whatever the strategy would answer; nothing is delivered, trading is disabled afterwards
+and no order table changes. (`disabled_no_generation` covers the ticks after it.) -/
+theorem disabling_tick_no_generation (e : Eng) (algoC : List CancelReq) (algoO : List OpenReq)
+    (refuse : Key → Bool) :
+    (process e (.tradingState false) algoC algoO refuse).2.generated = none ∧
+    (process e (.tradingState false) algoC algoO refuse).2.algoInAudit = none ∧
+    (process e (.tradingState false) algoC algoO refuse).1.log = e.log ∧
+    (process e (.tradingState false) algoC algoO refuse).1.enabled = false ∧
+    (process e (.tradingState false) algoC algoO refuse).1.instruments = e.instruments := by
+  have h : (updateTradingState e false).enabled = false := by
+    unfold updateTradingState; split <;> rfl
+  have hl : (updateTradingState e false).log = e.log := by
+    unfold updateTradingState; split <;> rfl
+  have hi : (updateTradingState e false).instruments = e.instruments := by
+    unfold updateTradingState; split <;> rfl
+  simp only [process]
+  unfold generateStage
+  simp [h, hl, hi]
+
+/-- (5) over a whole disabled stretch: from a disabled engine, any history of ticks none of which
+re-enables trading generates nothing in any tick. -/
+theorem disabled_stretch_no_generation (e : Eng) (ticks : List TickInput) (hd : e.enabled = false)
+    (hev : ∀ t ∈ ticks, t.1 ≠ .tradingState true) :
+    (runEngine e ticks).enabled = false ∧
+    ∀ (pre : List TickInput) (t : TickInput) (post : List TickInput), ticks = pre ++ t :: post →
+      (process (runEngine e pre) t.1 t.2.1 t.2.2.1 t.2.2.2).2.generated = none := by
+  have step : ∀ (e : Eng) (t : TickInput), e.enabled = false → t.1 ≠ .tradingState true →
+      (process e t.1 t.2.1 t.2.2.1 t.2.2.2).1.enabled = false := by
+    intro e t hd ht
+    obtain ⟨ev, cs, os, rf⟩ := t
+    cases ev with
+    | shutdown => exact hd
+    | command c => simp only; rw [disabled_command_state e c cs os rf hd, action_enabled]; exact hd
+    | tradingState on =>
+      cases on with
+      | true => exact absurd rfl ht
+      | false => exact (disabling_tick_no_generation e cs os rf).2.2.2.1
+    | update u =>
+      simp only; rw [disabled_still_updates e u cs os rf hd]
+      cases u <;> simpa [applyUpdate] using hd
+  induction ticks generalizing e with
+  | nil =>
+    refine ⟨hd, ?_⟩
+    intro pre t post h; cases pre <;> cases h
+  | cons t ts ih =>
+    have h1 := step e t hd (hev t (by simp))
+    have := ih _ h1 (fun x hx => hev x (by simp [hx]))
+    refine ⟨by simpa [runEngine] using this.1, ?_⟩
+    intro pre t' post h
+    cases pre with
+    | nil =>
+      simp only [List.nil_append, List.cons.injEq] at h
+      obtain ⟨rfl, _⟩ := h
+      exact disabled_no_generation e _ _ _ _ hd (hev _ (by simp))
+    | cons p pre =>
+      simp only [List.cons_append, List.cons.injEq] at h
+      obtain ⟨rfl, h⟩ := h
+      simpa [runEngine] using this.2 pre t' post h
+
+/-! Non-vacuity of the added statements. -/
+-- a whole tick: command opens (0,5), nothing generated: in flight; then an unrelated tick keeps it
+example : ShownInFlight (orderState (runEngine demo
+    [(.command (.sendOpenRequests [o0]), [], [], fun _ => false),
+     (.update (.price 1 7), [], [o1], fun _ => false),
+     (.command (.cancelOrders .none), [], [], fun _ => false)]) 0 5) := by decide +kernel
+-- ... and the exchange's answer ends it
+example : orderState (runEngine demo
+    [(.command (.sendOpenRequests [o0]), [], [], fun _ => false),
+     (.update (.order 0 (.snapshot ⟨5, 1, 100, .active (.opn ⟨9, 1, 0⟩), 0⟩)), [], [], fun _ => false)]) 0 5
+    = some (.opn ⟨9, 1, 0⟩) := by decide +kernel
+-- a failed command request leaves no mark (exchange 1's link is closed)
+example : (action demo (.sendOpenRequests [o1])).2.opens.errors = [(o1, .terminated)] ∧
+    orderState (action demo (.sendOpenRequests [o1])).1 1 6 = none := by decide +kernel
+-- ClosePositions / CancelOrders do send something in a suitable state
+def demoPos : Eng :=
+  { demo with instruments := [⟨0, 0, 1, [(5, ⟨1, 100, .opn ⟨9, 0, 0⟩, 0⟩)], some (.buy, 2), some 100⟩,
+                              ⟨1, 2, 3, [], none, none⟩] }
+example : (action demoPos (.closePositions .none)).2.opens.sent = [⟨⟨0, 0, closeCid 0⟩, .sell, 100, 2⟩] ∧
+    (action demoPos (.cancelOrders .none)).2.cancels.sent = [⟨⟨0, 0, 5⟩, some 9⟩] := by decide +kernel
 
 end BarterModel.Props.C03
